@@ -1,6 +1,7 @@
 (* C05 — the active protocol is the newest supported one not newer than reported. *)
 From Coq Require Import List NArith ZArith Bool String.
 From AMS Require Import Models Codec GatewayFacts GatewayInv GatewaySteps VersionFacts GatewayVer.
+From AMS Require Import GatewayVerStep.
 Import ListNotations.
 
 (* selection, for every release string of the dotted-numeric grammar with at
@@ -98,3 +99,52 @@ Proof.
   intros K. apply type_not_2_not_version. exact (H2 K).
 Qed.
 Print Assumptions C05_only_version_reports_change_it.
+
+(* ... and version reports DO move them, whatever the registry holds (the positive half): for every
+   protocol, state, oracle and fault stream, an I_VERSION line whose payload selects protocol i
+   leaves the gateway with that reported version and protocol i, is yielded, writes nothing and
+   touches neither registry nor buffers *)
+Theorem C05_version_reply_step :
+  forall bat vlt now w faults line m i,
+    (w_proto w < 5)%nat ->
+    decode (proto_of w) line = DecOk m -> m_cmd m = 3%Z -> m_type m = 2%Z ->
+    get_protocol vlt (m_payload m) = Some i ->
+    let r := recv bat vlt now w faults line in
+    w_pv (fst (fst r)) = Some (m_payload m) /\ w_proto (fst (fst r)) = i
+    /\ snd (fst r) = Yield m /\ snd r = []
+    /\ w_nodes (fst (fst r)) = w_nodes w /\ w_set (fst (fst r)) = w_set w /\ w_internal (fst (fst r)) = w_internal w.
+Proof. exact version_reply_step. Qed.
+Print Assumptions C05_version_reply_step.
+
+(* a version report that is rejected changes neither (and nothing in the registry) *)
+Theorem C05_version_reply_rejected :
+  forall bat vlt now w faults line m,
+    (w_proto w < 5)%nat ->
+    decode (proto_of w) line = DecOk m -> m_cmd m = 3%Z -> m_type m = 2%Z ->
+    get_protocol vlt (m_payload m) = None ->
+    let r := recv bat vlt now w faults line in
+    w_pv (fst (fst r)) = w_pv w /\ w_proto (fst (fst r)) = w_proto w /\ w_nodes (fst (fst r)) = w_nodes w
+    /\ (snd (fst r) = Raise EInvalidMessage \/ (w_pv w = None /\ snd (fst r) = Raise ETransport)).
+Proof. exact version_reply_rejected. Qed.
+Print Assumptions C05_version_reply_rejected.
+
+(* the gateway's own presentation (0;255;0;...) through the 1.x / 2.x wrappers of the
+   presentation handler: the presented version is applied whatever node 0's record said before
+   (a controller restarted on a persistence file has node 0 with the version of the last session) *)
+Theorem C05_gateway_presentation_step :
+  forall bat vlt now line s m i,
+    (w_proto (s_w s) < 5)%nat ->
+    decode (proto_of (s_w s)) line = DecOk m -> m_cmd m = 0%Z -> m_child m = 255%Z -> m_node m = 0%Z ->
+    get_protocol vlt (m_payload m) = Some i ->
+    pvp_of (listen_step bat vlt now line s) = (Some (m_payload m), i).
+Proof. exact gateway_presentation_step. Qed.
+Print Assumptions C05_gateway_presentation_step.
+
+Example C05_restart_example :
+  let bat := fun _ : list N => @None Z in
+  let vlt := vlt_full (fun _ _ => None) in
+  let w := w_put_node (init_world true) (mk_node 0 18 (lit "2.2.0") [] [] 0 0 false false) in
+  let r := recv bat vlt 0 w [] (lit "0;255;0;0;18;2.2.0") in
+  (w_pv w, w_proto w) = (None, 0%nat)
+  /\ (w_pv (fst (fst r)), w_proto (fst (fst r))) = (Some (lit "2.2.0"), 4%nat).
+Proof. vm_compute. split; reflexivity. Qed.
